@@ -13,7 +13,7 @@
    Definitions only; proofs are in Proofs/Median*.v.  Transcribed from the .pyx via the
    bit-exactly validated design/prototypes/median_reference.py. *)
 From Coq Require Import ZArith List Bool.
-From Centro Require Import Base.Sx.
+From Centro Require Import Base.Sx Gen.MedianConstC07.
 Import ListNotations.
 Open Scope Z_scope.
 
@@ -24,10 +24,11 @@ Inductive variant : Type := AsIs | Fixed.
 
 (* ------------------------------------------------------------------ geometry (lines 232-239) *)
 
-(* a = <int>(<float64>radius * 2.0 / 2.414213): truncation of radius*2000000/2414213 (radius >= 0);
-   the harness checks float truncation = this quotient for every radius it uses. *)
-Definition oct_num : Z := 2000000.
-Definition oct_den : Z := 2414213.
+(* a = <int>(<float64>radius * 2.0 / 2.414213): truncation of radius*2000000/2414213 (radius >= 0).
+   The two constants are regenerated from _filter.cpp on every run (Gen/MedianConstC07.v); the
+   translator also checks float truncation = this quotient for radius 0..4096. *)
+Definition oct_num : Z := gen_oct_num.
+Definition oct_den : Z := gen_oct_den.
 Definition oct_a (radius : Z) : Z := (radius * oct_num) / oct_den.
 Definition oct_a2 (radius : Z) : Z := let h := oct_a radius / 2 in if h =? 0 then 1 else h.
 Definition oct_R (radius : Z) : Z := let a2 := oct_a2 radius in if radius <=? a2 then a2 + 1 else radius.
